@@ -1,4 +1,55 @@
-//! C09 – see taint.rs (shared engine with C19).
+//! C09 – see taint.rs (shared engine with C19), plus the error-parameter API itself.
+use conjure_error::Error;
+use serde_json::json;
+use vcore::Rng;
+
+/// Handlers attach parameters to the errors they return. Whatever the order and whatever the names (also one name
+/// used for a safe and for an unsafe value), a value given as *unsafe* never shows up among the safe parameters, and a
+/// value given as safe stays retrievable there unless overwritten by a later safe value of that name.
+fn error_params_case(seed: u64, rep: &mut vcore::Report) {
+    const NAMES: [&str; 5] = ["query", "param", "actual", "id", "detail"];
+    let mut r = Rng::new(seed);
+    let mut e = match r.below(3) {
+        0 => Error::internal_safe("cause"),
+        1 => Error::service_safe("cause", conjure_error::InvalidArgument::new()),
+        _ => Error::internal("cause"),
+    };
+    let mut unsafe_values: Vec<String> = vec![];
+    let mut last_safe: std::collections::BTreeMap<&str, String> = Default::default();
+    let mut ops = vec![];
+    for k in 0..1 + r.below(6) {
+        let name = *r.pick(&NAMES);
+        let value = format!("cnry{}x{}", seed % 100_000, k);
+        if r.bool() {
+            e = e.with_safe_param(name, value.clone());
+            last_safe.insert(name, value.clone());
+            ops.push(format!("safe({}, {})", name, value));
+        } else {
+            e = e.with_unsafe_param(name, value.clone());
+            unsafe_values.push(value.clone());
+            ops.push(format!("unsafe({}, {})", name, value));
+        }
+    }
+    rep.evaluations += 1;
+    rep.cell("error-params/sequences");
+    let safe: Vec<(String, String)> = e.safe_params().iter().map(|(k, v)| (k.to_string(), conjure_serde::json::to_string(v).unwrap_or_default())).collect();
+    let unsafe_: Vec<(String, String)> = e.unsafe_params().iter().map(|(k, v)| (k.to_string(), conjure_serde::json::to_string(v).unwrap_or_default())).collect();
+    let detail = || json!({"operations": ops, "safe_params": safe, "unsafe_params": unsafe_});
+    for u in &unsafe_values {
+        if safe.iter().any(|(_, v)| v.contains(u.as_str())) {
+            rep.violation("error-params", seed, "error-params:unsafe-value-among-safe-params", detail());
+            return;
+        }
+    }
+    for (name, v) in &last_safe {
+        if !safe.iter().any(|(k, x)| k == name && x.contains(v.as_str())) {
+            rep.violation("error-params", seed, "error-params:safe-value-not-among-safe-params", detail());
+            return;
+        }
+    }
+}
+
 pub fn run(ctx: &crate::ctx::Ctx, report: &mut vcore::Report) {
     crate::taint::run(ctx, report, crate::taint::Mode::C09);
+    ctx.cases(report, "error-params", ctx.n(20_000, 500_000), error_params_case);
 }
